@@ -301,7 +301,7 @@ MODEL_PARAMS = {  # beyond `dict(L=2, Lx=2, Ly=2)`: what a class needs / a secon
     'SpinChain': [dict(S=1, D=0.2, conserve='parity'), dict(bc_MPS='infinite', bc_x='periodic', hx=0.1)],
     'SpinModel': [dict(lattice='Square', Lx=2, Ly=2, bc_y='cylinder')],
     'FermiHubbardModel2': [dict(lattice='Chain', L=2)], 'BoseHubbardChain': [dict(n_max=2, conserve='parity')],
-    'tJChain': [dict(bc_MPS='infinite')], 'ToricCode': [dict(Lx=1, Ly=2, bc_MPS='infinite')],
+    'tJChain': [dict(bc_MPS='infinite')], 'DipolarSpinChain': [dict(L=4)], 'ToricCode': [dict(Lx=1, Ly=2, bc_MPS='infinite')],
 }
 
 
